@@ -98,6 +98,21 @@ def pattern_operand_ok(e):
             if not ok:
                 return ok, why
         return True, 'concatenation of safe parts'
+    if isinstance(e, ast.BinOp) and isinstance(e.op, ast.Mod) and isinstance(e.left, ast.Constant) and isinstance(e.left.value, (bytes, str)):
+        # b'[%s-%s]' % (a, b): the constant template with its operands spliced in
+        import re as _re
+        fmt = e.left.value.decode('latin-1') if isinstance(e.left.value, bytes) else e.left.value
+        convs = [c for c in _re.findall(r'%[#0\- +]*\d*(?:\.\d+)?([a-zA-Z%])', fmt) if c != '%']
+        args = e.right.elts if isinstance(e.right, ast.Tuple) else [e.right]
+        if len(convs) != len(args):
+            return None, 'cannot match the conversions of %r with its operands' % fmt
+        for c, a in zip(convs, args):
+            if c in 'idxXo':
+                continue
+            ok, why = pattern_operand_ok(a)
+            if not ok:
+                return ok, why
+        return True, 'constant template with safe operands'
     if _has_value_read(e) or (isinstance(e, ast.Attribute) and isinstance(e.value, ast.Name) and e.value.id == 'self'):
         return False, '%s (a field value / marker) is placed in the pattern without re.escape' % canon(e)
     return None, 'cannot classify %s' % canon(e)
@@ -378,10 +393,11 @@ def check_assembly(ctx, repo):
     loops = [n for n in ast.walk(src) if isinstance(n, ast.For)]
     okh = False
     for n in ast.walk(src):
-        if isinstance(n, ast.BinOp) and isinstance(n.op, ast.Mod) and isinstance(n.left, ast.Constant) and isinstance(n.left.value, str):
+        if isinstance(n, ast.BinOp) and isinstance(n.op, ast.Mod) and isinstance(n.left, ast.Constant) and isinstance(n.left.value, (str, bytes)):
             fmt = n.left.value
+            fmt = fmt.decode('latin-1') if isinstance(fmt, bytes) else fmt
             st = stmt_text(n)
-            if fmt == '(?:.{%i})':
+            if fmt in ('(?:.{%i})', '(?:.{%d})'):
                 okh = True
                 ctx.holds(rule, asm, st, 'a hole of n bytes matches exactly n arbitrary bytes', n.lineno, clause='e')
             else:
